@@ -75,6 +75,7 @@ class Universe:
             res.append(("remove", eid, -1))
             if eid[0] == "v":
                 res.append(("pop", eid, -1))
+                res.append(("relink", eid, -1))  # same cell, another link id (a vehicle that starts a new leg without leaving its cell)
         return res
 
     def apply(self, sim, op, eid, ci):
@@ -87,6 +88,17 @@ class Universe:
             return {"v": ops.modify_vehicle_safe, "r": ops.modify_request_safe, "s": ops.modify_station_safe, "b": ops.modify_base_safe}[k](sim, e)
         if op == "remove":
             return {"v": ops.remove_vehicle_safe, "r": ops.remove_request_safe, "s": ops.remove_station_safe, "b": ops.remove_base_safe}[k](sim, eid)
+        if op == "relink":
+            cur = sim.vehicles.get(eid)
+            if cur is None:
+                from nrel.hive.util.exception import SimulationStateError
+
+                return Failure(SimulationStateError("vehicle absent"))
+            from nrel.hive.model.entity_position import EntityPosition
+
+            other = self.cells[(self.cells.index(cur.geoid) + 1) % len(self.cells)]
+            new_link = f"{cur.geoid}-{other}" if cur.position.link_id != f"{cur.geoid}-{other}" else f"{other}-{cur.geoid}"
+            return ops.modify_vehicle_safe(sim, cur.modify_position(EntityPosition(new_link, cur.geoid)))
         if op == "pop":
             r = ops.pop_vehicle_safe(sim, eid)
             if isinstance(r, Failure):
@@ -148,7 +160,7 @@ def closure(nv, nr, ns, nb, rot: int = 0):
                 findings.setdefault(("exception", op, eid[0], type(e).__name__), (f"{op} {eid} raised {type(e).__name__}: {e}", list(hist) + [(op, eid, ci)]))
                 continue
             failed = isinstance(res, Failure)
-            must_fail = (op in ("modify", "remove", "pop") and not present) or (op == "modify" and eid[0] in "sb" and present and ci != here)
+            must_fail = (op in ("modify", "remove", "pop", "relink") and not present) or (op == "modify" and eid[0] in "sb" and present and ci != here)
             if must_fail and not failed:
                 what = "moved" if present else "absent_id_accepted"
                 findings.setdefault((what, op, eid[0]), (f"{op} {eid} -> cell {ci} succeeded on state {a} (must be refused)", list(hist) + [(op, eid, ci)]))
@@ -165,7 +177,7 @@ def closure(nv, nr, ns, nb, rot: int = 0):
             want_a = list(a)
             i = U.ids.index(eid)
             if not must_fail:
-                want_a[i] = ci if op in ("add", "modify") else -1
+                want_a[i] = ci if op in ("add", "modify") else (here if op == "relink" else -1)
             if tuple(want_a) != a2:
                 findings.setdefault(("entities", op, eid[0]), (f"after {op} {eid} -> cell {ci} on {a} the entities are at {a2}, expected {tuple(want_a)}", list(hist) + [(op, eid, ci)]))
             if bad:
@@ -185,6 +197,31 @@ def closure(nv, nr, ns, nb, rot: int = 0):
     return {"abstract_states": len(seen), "space": space, "ops": nops, "ok": nok, "maxdepth": maxdepth, "findings": findings, "samples": samples, "ids": U.ids}
 
 
+def bulk_load() -> List[Tuple[tuple, str]]:
+    """a whole fleet added in ONE batch through add_entities / add_entities_safe (what the vehicle initialiser does): 150 vehicles on
+    30 stands of three search cells, listed stand after stand in rounds, so that the vehicles of one cell are never adjacent"""
+    U = Universe(1, 1, 1, 1)
+    S = sites()
+    import h3
+
+    stands = []
+    for name in ("A", "N1", "N2", "X1", "X2", "F1"):
+        stands += list(h3.k_ring(S[name], 1))[:5]
+    vehicles = [mk_vehicle(U.env, U.rn, f"w{k:03d}", stands[k % len(stands)]) for k in range(150)]
+    out = []
+    for label, fn in (("add_entities", lambda: ops.add_entities(U.empty, vehicles)), ("add_entities_safe", lambda: ops.add_entities_safe(U.empty, vehicles).unwrap())):
+        try:
+            sim = fn()
+        except Exception as e:
+            out.append((("exception", "bulk_load", label), f"{label} of 150 vehicles raised {type(e).__name__}: {e}"))
+            continue
+        if len(sim.vehicles) != 150:
+            out.append((("entities", "bulk_load", label), f"{label}: {len(sim.vehicles)} vehicles in the simulation after adding 150"))
+        for name, kind, cell, have, want in index_mismatches(sim)[:1]:
+            out.append((("index", name[0], name.split("_")[1], kind, "bulk_load"), f"after {label} of 150 vehicles on 30 stands: {name}[{cell}] = {have}, entities say {want}"))
+    return out
+
+
 def c08_enum(c: Check):
     quick = tier() == "quick"
     shape = (2, 2, 2, 1) if quick else (2, 2, 2, 2)
@@ -192,14 +229,17 @@ def c08_enum(c: Check):
     r = closure(*shape, rot=seed())
     for sig, (msg, hist) in r["findings"].items():
         c.add(Finding("C08", sig, msg, {"engine": "enum_index", "shape": list(shape), "ops": [list(x) for x in hist]}))
+    for sig, msg in bulk_load():
+        c.add(Finding("C08", sig, msg, {"engine": "enum_index", "bulk_load": True}))
     cov = c.coverage
+    cov["bulk_load"] = "150 vehicles on 30 stands of 3 search cells added in one batch (add_entities, add_entities_safe), indexes compared with the entities"
     cov["states"] = cov.get("states", 0) + r["abstract_states"]
     cov["transitions"] = cov.get("transitions", 0) + r["ops"]
     cov["traces_validated_against_impl"] = cov.get("traces_validated_against_impl", 0) + r["ops"]
     cov["evaluations"] = r["ops"]
     cov["distinct_nontrivial"] = r["abstract_states"]
     cov["rule"] = (
-        f"BFS to closure over SimulationState values: entities {r['ids']} on 3 cells (g1, g2 in g1's search cell, g3 in another) or absent; operations add / modify-to-each-cell / remove / pop, "
+        f"BFS to closure over SimulationState values: entities {r['ids']} on 3 cells (g1, g2 in g1's search cell, g3 in another) or absent; operations add / modify-to-each-cell / remove / pop / relink (same cell, another link id), "
         "also on absent ids and station/base moves (must be refused); oracle after every operation: the 8 index maps equal the maps derived from the entities, failed operations change nothing, "
         "states reached by different histories have identical indexes; distinct = abstract states (id -> cell|absent)"
     )
@@ -214,6 +254,15 @@ def c08_enum(c: Check):
 
 
 def replay(body) -> int:
+    if body["replay"].get("bulk_load"):
+        bad = bulk_load()
+        for sig, msg in bad:
+            print(" | ".join(sig), "::", msg)
+        if bad:
+            print(f"VIOLATION property=C08 replay={body.get('_path')}")
+            return 1
+        print("not reproduced on this tree")
+        return 0
     rp = body["replay"]
     U = Universe(*rp["shape"])
     sim = U.empty
